@@ -47,7 +47,7 @@ ASSUMPTIONS = [
     "children and disposables are fault free, so the injected cancellation is the only fault (TaskGroup gives child errors priority over a cancellation; that is unspecified here)",
     "an injection that was requested but not delivered as CancelledError at that point (the awaited step had already completed) is counted, not judged",
 ]
-MINIMUMS = {"delivered_in_entering": 50, "delivered_in_body": 200, "delivered_in_exiting": 200, "monitor:victim-cancelled": 1000, "monitor:check-cancellation": 40, "blocked_children_at_injection": 200, "injections_delayed_by_loop_iterations": 5000}
+MINIMUMS = {"delivered_in_entering": 50, "delivered_in_body": 200, "delivered_in_exiting": 200, "monitor:victim-cancelled": 1000, "monitor:check-cancellation": 40, "blocked_children_at_injection": 200, "injections_delayed_by_loop_iterations": 5000, "checks_by_workers_of_an_owner_handling_its_cancellation": 5}
 JOBS = {"quick": 4, "thorough": 16}
 LEVEL_TEXT = (
     "For each victim program and gate schedule the victim's suspension points are counted in a fault-free run, then one run per point injects a cancellation request exactly "
@@ -503,7 +503,43 @@ def check_cancellation_elsewhere(R: Recorder) -> None:
         async with ctx.scope("cc"):
             seen["asynchronous-worker-thread-in-scope"] = await worker()
 
+    async def beside_a_cancelled_owner() -> None:
+        # the task that entered the scope was asked to cancel and handles that in its body (a graceful drain: it lets its workers finish,
+        # then re-raises); its workers - spawned tasks, plain tasks, callbacks - were not asked to cancel: the check is quiet for them
+        release = asyncio.Event()
+        finished: list[asyncio.Task[None]] = []
+
+        async def spawned_worker(tag: str) -> None:
+            await release.wait()
+            seen[f"{tag}-beside-an-owner-handling-its-cancellation"] = probe()
+            with ctx.updated():
+                seen[f"{tag}-in-an-update-beside-an-owner-handling-its-cancellation"] = probe()
+
+        async def owner() -> None:
+            async with ctx.scope("drained"):
+                finished.append(ctx.spawn(spawned_worker, "spawned-task"))
+                finished.append(asyncio.get_running_loop().create_task(spawned_worker("plain-task")))
+                try:
+                    await asyncio.get_running_loop().create_future()
+                except asyncio.CancelledError:
+                    seen["owner-handling-its-cancellation"] = probe()  # the owner itself WAS asked: recorded, judged below
+                    release.set()
+                    asyncio.get_running_loop().call_soon(lambda: seen.__setitem__("loop-callback-beside-an-owner-handling-its-cancellation", probe()))
+                    await asyncio.gather(*finished)
+                    raise
+
+        t = asyncio.get_running_loop().create_task(owner())
+        for _ in range(3):
+            await asyncio.sleep(0)
+        t.cancel()
+        await asyncio.gather(t, return_exceptions=True)
+
     asyncio.run(main())
+    asyncio.run(beside_a_cancelled_owner())
+    owner_seen = seen.pop("owner-handling-its-cancellation", None)
+    R.monitor("check-cancellation", owner_seen is not None and "CancelledError" in owner_seen, where={"kind": "quiet-although-requested", "state": "owner-handling-its-cancellation"},
+              detail=f"a task that was asked to cancel and has not taken that back checks: {owner_seen}", case={"check": "owner-handling-its-cancellation"})
+    R.count("checks_by_workers_of_an_owner_handling_its_cancellation", sum(1 for k in seen if "beside-an-owner" in k))
     for where_, got in seen.items():
         R.case({"check": where_}, nontrivial=True)
         R.monitor("check-cancellation", got == "quiet", where={"kind": "raised-spuriously", "state": where_}, detail=f"ctx.check_cancellation() in {where_}: {got}", case={"check": where_})
